@@ -129,12 +129,7 @@ func runC16Struct(c *Ctx, wl *walkLayers) {
 		switch {
 		case rmExpr == "nil" || rmExpr == "":
 		case strings.HasPrefix(rmExpr, "v.ruleMap[g:valid."):
-			typeEmpty := false
-			for k, v := range pc {
-				if strings.HasPrefix(k, "eq(0,len(v.ruleMap[") && strings.HasSuffix(k, ".Type()]))") && v == 1 {
-					typeEmpty = true
-				}
-			}
+			typeEmpty := typeScopedEmpty(pc)
 			if !hasOuter || outer != 1 {
 				scope = append(scope, "the unscoped rule set is consulted for a nested object")
 			}
@@ -143,16 +138,7 @@ func runC16Struct(c *Ctx, wl *walkLayers) {
 			}
 		case isUnscopedField(p, rmExpr):
 			// the unscoped set kept in a field of its own instead of under a sentinel key: same conditions
-			typeEmpty := false
-			for k, v := range pc {
-				if strings.HasPrefix(k, "eq(0,len(v.ruleMap[") && strings.HasSuffix(k, ".Type()]))") && v == 1 {
-					typeEmpty = true
-				}
-				// no type-scoped table at all
-				if strings.HasPrefix(k, "eq(") && strings.Contains(k, "nil") && strings.Contains(k, "v.ruleMap") && !strings.Contains(k, "v.ruleMap[") && v == 1 {
-					typeEmpty = true
-				}
-			}
+			typeEmpty := typeScopedEmpty(pc)
 			if !hasOuter || outer != 1 {
 				scope = append(scope, "the unscoped rule set is consulted for a nested object")
 			}
@@ -582,6 +568,26 @@ func isUnscopedField(p *Prog, expr string) bool {
 	}
 	for i := 0; i < st.NumFields(); i++ {
 		if st.Field(i).Name() == expr[2:] && isNamed(st.Field(i).Type(), ModPath+"/valid", "RM") {
+			return true
+		}
+	}
+	return false
+}
+
+
+// typeScopedEmpty: on this path the rule set registered for the object's own type was found empty
+// (len == 0, !(len > 0), len < 1) or there is no type-scoped table at all.
+func typeScopedEmpty(pc map[string]int) bool {
+	for k, v := range pc {
+		isLen := strings.Contains(k, "len(v.ruleMap[") && strings.HasSuffix(k, ".Type()]))")
+		switch {
+		case isLen && strings.HasPrefix(k, "eq(0,") && v == 1:
+			return true
+		case isLen && strings.HasPrefix(k, "lt(0,") && v == 0: // !(0 < len)
+			return true
+		case isLen && strings.HasPrefix(k, "lt(len(") && strings.HasSuffix(k, ",1)") && v == 1: // len < 1
+			return true
+		case strings.HasPrefix(k, "eq(") && strings.Contains(k, "nil") && strings.Contains(k, "v.ruleMap") && !strings.Contains(k, "v.ruleMap[") && v == 1:
 			return true
 		}
 	}
